@@ -154,6 +154,10 @@ func (u *universe) addShare(name, target string, transitive bool, date int, expi
 }
 
 // buildUniverse makes the store. Everything is deterministic.
+// universeRestart makes buildUniverse hand the share handler an index that was re-opened (index.New) over
+// the rows written while the universe was indexed: what a server restart does.
+var universeRestart bool
+
 func buildUniverse() (*universe, error) {
 	u := &universe{byRef: map[blob.Ref]int{}, byNam: map[string]int{}}
 	a := world.A()
@@ -308,6 +312,14 @@ func buildUniverse() (*universe, error) {
 				return nil, fmt.Errorf("indexing %s: %v", n.Name, err)
 			}
 		}
+	}
+	if universeRestart {
+		// the share handler runs on an index re-opened over the rows the first one wrote
+		ix2, err := world.NewIdx(kv, u.Src)
+		if err != nil {
+			return nil, err
+		}
+		u.Idx = ix2.Index
 	}
 	ld := &shareLoader{Loader: hs.NewLoader(), idx: u.Idx}
 	ld.Set("/bs/", u.Src)
@@ -714,6 +726,10 @@ func (u *universe) report(res *vk.Result, sc *vk.Scenario, q shareReq, chain []i
 			what += fmt.Sprintf("; shortest refused valid prefix: %v (last hop %s)", u.names(mp), hop)
 		}
 	}
+	if universeRestart {
+		res.Violate(sc, "C17|share-chain-after-index-restart|"+p.Class+"|"+detail, "index re-opened before serving: "+what, map[string]any{"part": "share", "req": q, "restarted": true})
+		return
+	}
 	res.Violate(sc, "C17|share-chain|"+p.Class+"|"+detail, what, map[string]any{"part": "share", "req": q})
 }
 
@@ -941,7 +957,51 @@ func (u *universe) describe() []string {
 	return out
 }
 
+// runShareRestarted: the same universe served by a share handler whose index was re-opened over the
+// persisted rows (a restart): every chain of length 1 and 2 that starts at a share claim, GET and HEAD.
+// Deletion status of share claims (deleted, undeleted, deleted twice with the newer deletion undone)
+// must not change with the restart.
+func runShareRestarted(res *vk.Result) {
+	universeRestart = true
+	defer func() { universeRestart = false }()
+	u, err := buildUniverse()
+	if err != nil {
+		res.EngineError("share: building the restarted universe: %v", err)
+		return
+	}
+	sc := res.Scenario("share-chains-after-index-restart")
+	sc.Bound = fmt.Sprintf("index re-opened over its rows; all chains of length 1..2 that start at a share claim over %d blobs x {GET,HEAD}", len(u.N))
+	reported := map[string]bool{}
+	for si, sn := range u.N {
+		if !sn.IsShare {
+			continue
+		}
+		chains := [][]int{{si}}
+		for ti := range u.N {
+			chains = append(chains, []int{si, ti})
+		}
+		for _, chain := range chains {
+			for _, m := range []string{"GET", "HEAD"} {
+				q := shareReq{Method: m, Chain: u.names(chain)}
+				out, p := u.checkOne(q, chain)
+				sc.Executions++
+				sc.States++
+				sc.Transitions++
+				sc.Outcome(out)
+				if p != nil && !reported[p.Class+"|"+p.Detail] {
+					reported[p.Class+"|"+p.Detail] = true
+					u.report(res, sc, q, append([]int(nil), chain...), p)
+				}
+			}
+		}
+	}
+}
+
 func replayShare(res *vk.Result, r map[string]any) {
+	if b, _ := r["restarted"].(bool); b {
+		universeRestart = true
+		defer func() { universeRestart = false }()
+	}
 	u, err := buildUniverse()
 	if err != nil {
 		res.EngineError("share: building the universe: %v", err)
